@@ -367,6 +367,27 @@ def ex3_acyclic(ctx: Ctx, shapes: Shapes):
         for e in r.by_kind("attr"):
             if e.obj == ("param", "self") and fi.cls and model.has_func(f"{fi.module}.{fi.cls}.{e.attr}"):
                 out.add(f"{fi.module}.{fi.cls}.{e.attr}")
+        # implicit calls of the object's own dunders: f"{self!r}" / repr(self) -> __repr__, f"{self}" / str(self) -> __str__,
+        # hash(self) -> __hash__, bytes(self) -> __bytes__ (an error message that prints the object re-enters its accessors)
+        if fi.cls:
+            me = ("param", "self")
+            for e in r.events:
+                for val in e.data.values():
+                    if not (isinstance(val, tuple) and val and isinstance(val[0], str)):
+                        continue
+                    for t in walk(val):
+                        dunder = None
+                        if t[0] == "fstr":
+                            for p in t[1]:
+                                if p[0] == "fmt" and p[1] == me:
+                                    dunder = "__repr__" if p[2] in ("r", "a") else "__str__"
+                        elif t[0] == "call" and t[1][0] == "builtin" and t[1][1] in ("str", "repr", "hash", "bytes", "format", "ascii") and t[2][:1] == (me,):
+                            dunder = {"str": "__str__", "repr": "__repr__", "hash": "__hash__", "bytes": "__bytes__", "format": "__str__",
+                                      "ascii": "__repr__"}[t[1][1]]
+                        elif t[0] == "binop" and t[1] == "Mod" and t[2][0] == "const" and isinstance(t[2][1], str) and (t[3] == me or (t[3][0] == "tuple" and me in t[3][1])):
+                            dunder = "__repr__" if "%r" in t[2][1] else "__str__"
+                        if dunder and model.has_func(f"{fi.module}.{fi.cls}.{dunder}"):
+                            out.add(f"{fi.module}.{fi.cls}.{dunder}")
         graph[fi.qual] = out
     # Tarjan-free cycle search (graph is tiny)
     color = {}
